@@ -125,6 +125,9 @@ def stHTTP500 : Nat := 500
 structure Sees where
   status : Nat
   msgs : List Resp
+  /-- DoQ only: the server closed its side of the stream (STREAM FIN), which is
+  what tells a DoQ client that the response is complete. -/
+  fin : Bool := false
 deriving DecidableEq, Repr
 
 def lastOr (d : Resp) : List Resp → Resp
@@ -142,7 +145,7 @@ def deliver (t : Transport) (m : Msg) (ws : List Resp) (wok : Bool) : Sees :=
   | .dohPost | .dohGet | .dohJSON =>
     if ws.isEmpty then { status := stHTTP500, msgs := [] }
     else { status := stHTTP200, msgs := [lastOr (setRcode m rcServFail) ws] }
-  | .doq => { status := stOpen, msgs := [lastOr (setRcode m rcServFail) ws] }
+  | .doq => { status := stOpen, msgs := [lastOr (setRcode m rcServFail) ws], fin := true }
   | .dnscryptUDP | .dnscryptTCP => { status := stNone, msgs := [lastOr (setRcode m rcServFail) ws] }
 
 /-- `validQUICMsg`: a request with an edns-tcp-keepalive option is a protocol error. -/
@@ -150,7 +153,7 @@ def validQUICMsg (m : Msg) : Bool := !(m.edns && m.keepalive)
 
 /-- One unpacked request on one transport. -/
 def serveMsg (t : Transport) (m : Msg) (o : Outcome) (wok : Bool) : Sees :=
-  if t = .doq ∧ validQUICMsg m = false then { status := stProtoErr, msgs := [] }
+  if t = .doq ∧ validQUICMsg m = false then { status := stProtoErr, msgs := [], fin := true }
   else deliver t m (serveCore m o) wok
 
 /-- What the client observes when the bytes did not reach `serveDNSMsg`
@@ -160,7 +163,7 @@ def dropped (t : Transport) : Sees :=
   | .udp | .dnscryptUDP | .dnscryptTCP => { status := stNone, msgs := [] }
   | .tcp | .dot => { status := stClosed, msgs := [] }
   | .dohPost | .dohGet | .dohJSON => { status := stHTTP500, msgs := [] }
-  | .doq => { status := stProtoErr, msgs := [] }
+  | .doq => { status := stProtoErr, msgs := [], fin := true }
 
 /-- Wire input: `unpacked = none` when `Unpack` failed (or the framing rejected the bytes). -/
 def serveWire (t : Transport) (unpacked : Option Msg) (o : Outcome) (wok : Bool) : Sees :=
@@ -374,6 +377,198 @@ def disposeCount (ks : List WriterKind) (t : Transport) (unpacked : Option Msg) 
   | some m =>
     if t = .doq ∧ validQUICMsg m = false then 0
     else (runLife (lifeOf ks t (!(serveCore m o).isEmpty))).disposes
+
+
+/-! ## Byte-level front end, part 2: the first question
+
+`dns.Msg.Unpack` for the part the accept path depends on: after the header the
+first question is a sequence of labels (`UnpackDomainName`), a type and a class
+(`unpackQuestion`, including its lenient treatment of a message that ends early).
+A compression pointer in the question name is left to the parameter. -/
+
+def hexDigit (n : Nat) : Char :=
+  if n < 10 then Char.ofNat ('0'.toNat + n) else Char.ofNat ('a'.toNat + n - 10)
+
+/-- Names are tokens: the hex of their wire form (labels with length octets, root included). -/
+def hexStr (bs : List Nat) : String :=
+  String.ofList (bs.flatMap fun b => [hexDigit (b / 16 % 16), hexDigit (b % 16)])
+
+inductive NameParse
+  | ok (name rest : List Nat)
+  | ptr
+  | bad
+deriving DecidableEq, Repr
+
+/-- `UnpackDomainName` without pointers: `budget` starts at 255 wire octets; a
+label type of `0x40`/`0x80` is an error, `0xC0` a pointer; a label that runs
+past the end of the message is an error. -/
+def parseName : Nat → Nat → List Nat → List Nat → NameParse
+  | 0, _, _, _ => .bad
+  | _ + 1, _, [], _ => .bad
+  | fuel + 1, budget, c :: r, acc =>
+    if c = 0 then .ok (acc ++ [0]) r
+    else if c ≥ 192 then .ptr
+    else if c ≥ 64 then .bad
+    else if r.length < c then .bad
+    else if budget ≤ c + 1 then .bad
+    else parseName fuel (budget - (c + 1)) (r.drop c) (acc ++ c :: r.take c)
+
+inductive QParse
+  | ok (q : Question)
+  | ptr
+  | bad
+deriving DecidableEq, Repr
+
+/-- `unpackQuestion` on the bytes that follow the header.  A message that ends
+right after the name, or after the type, yields a question with the missing
+fields zero; a single dangling octet after the name is an error, after the type
+it is swallowed. -/
+def parseQuestion (b : List Nat) : QParse :=
+  match parseName 130 255 b [] with
+  | .bad => .bad
+  | .ptr => .ptr
+  | .ok nm rest =>
+    match rest with
+    | [] => .ok ⟨hexStr nm, 0, 0⟩
+    | [_] => .bad
+    | [t0, t1] => .ok ⟨hexStr nm, t0 * 256 + t1, 0⟩
+    | [t0, t1, _] => .ok ⟨hexStr nm, t0 * 256 + t1, 0⟩
+    | t0 :: t1 :: c0 :: c1 :: _ => .ok ⟨hexStr nm, t0 * 256 + t1, c0 * 256 + c1⟩
+
+/-- The contract assumed of `Unpack`, checked on every correspondence line: the
+message agrees with the header octets, a bare header has no questions, and
+when the header announces a question and the name is not compressed the first
+question is the one `parseQuestion` finds — in particular `Unpack` fails when
+`parseQuestion` does. -/
+def wireAgreesB (b : List Nat) (m : Msg) : Bool :=
+  match parseHdr b with
+  | none => false
+  | some h =>
+    h.id == m.id && h.qr == m.qr && h.opcode == m.opcode && h.rd == m.rd && h.cd == m.cd &&
+    (if b.length ≤ 12 || h.qd == 0 then m.questions.isEmpty
+     else match parseQuestion (b.drop 12) with
+       | .ok q => m.questions.head? == some q
+       | .ptr => true
+       | .bad => false)
+
+def WireAgrees (b : List Nat) (m : Msg) : Prop := wireAgreesB b m = true
+
+/-- `unpack` is a sound decoder for the header and the first question. -/
+def UnpackOK (unpack : List Nat → Option Msg) : Prop :=
+  ∀ b m, unpack b = some m → WireAgrees b m
+
+/-! ## Per-transport framing: which bytes reach `Unpack` -/
+
+/-- Default `ConfigDNS.UDPSize`: the size of the pooled UDP read buffer. -/
+def udpBufSize : Nat := 512
+
+/-- A DoQ stream carrying `b`: two length octets, then the message. -/
+def frameDoQ (b : List Nat) : List Nat := [b.length / 256 % 256, b.length % 256] ++ b
+
+/-- The bytes transport `t` hands to `Unpack` for the wire message `b` (`none`: the
+framing drops it first), and one wire message end to end.  `pool` is whatever an
+earlier request left in the pooled DoQ read buffer; `unpack` stands for
+`dns.Msg.Unpack`.  UDP: datagrams shorter than a header are dropped before
+`Unpack` (`readUDPMsg`) and longer ones are cut to the read buffer; DoQ: the
+stream goes through `readQUICMsg`; TCP/DoT frames, DoH bodies and DNSCrypt
+payloads reach `Unpack` as they are. -/
+def unpackInput (t : Transport) (pool b : List Nat) : Option (List Nat) :=
+  match t with
+  | .udp => if b.length < 12 then none else some (b.take udpBufSize)
+  | .doq => quicPayload pool (frameDoQ b)
+  | _ => some b
+
+def serveBytes (t : Transport) (pool b : List Nat) (unpack : List Nat → Option Msg)
+    (o : Outcome) (wok : Bool) : Sees :=
+  match unpackInput t pool b with
+  | none => dropped t
+  | some p => serveWire t (unpack p) o wok
+
+/-! ## A TCP/DoT connection: a sequence of length-prefixed frames -/
+
+/-- `readTCPMsg` repeatedly: two length octets, then exactly that many octets; a
+short read ends the connection (the remaining bytes are never served). -/
+def tcpFrames : Nat → List Nat → List (List Nat)
+  | 0, _ => []
+  | fuel + 1, l0 :: l1 :: rest =>
+    let n := l0 * 256 + l1
+    if rest.length < n then [] else rest.take n :: tcpFrames fuel (rest.drop n)
+  | _ + 1, _ => []
+
+/-- The frames of one connection served in order (`MaxPipelineCount = 1`): each
+frame is answered on its own; the first frame for which nothing is written
+makes the server close the connection, and what follows is not served. -/
+def serveConn (t : Transport) (unpack : List Nat → Option Msg) (wok : Bool) :
+    List (List Nat × Outcome) → List Sees
+  | [] => []
+  | (b, o) :: rest =>
+    let s := serveWire t (unpack b) o wok
+    if s.status = stClosed then [s] else s :: serveConn t unpack wok rest
+
+/-! ## The UDP accept loop (`serveUDP` / `acceptUDPMsg`)
+
+The loop ends — and the listener is gone — as soon as `acceptUDPMsg` returns an
+error.  What a client can cause is a datagram; the other read results are the
+socket's. -/
+
+inductive UdpRead
+  | critErr                  -- a read error that is not "non-critical" (closed socket …)
+  | softErr                  -- timeout and the like (`isNonCriticalNetError`)
+  | dgram (b : List Nat)
+deriving DecidableEq, Repr
+
+/-- Does `acceptUDPMsg` return a non-nil error?  `swallowShort` is whether the
+error filter lets `dns.ErrShortRead` (a datagram shorter than a header) through. -/
+def udpAcceptFails (swallowShort : Bool) : UdpRead → Bool
+  | .critErr => true
+  | .softErr => false
+  | .dgram b => b.length < 12 && !swallowShort
+
+/-- The loop: what each datagram's client sees, and whether the loop is still running. -/
+def udpLoop (swallowShort : Bool) (unpack : List Nat → Option Msg) (handler : Msg → Outcome) (wok : Bool) :
+    List UdpRead → List Sees × Bool
+  | [] => ([], true)
+  | r :: rest =>
+    let out : List Sees := match r with
+      | .dgram b => [serveBytes .udp [] b unpack
+          (match unpack (b.take udpBufSize) with | some m => handler m | none => .silent) wok]
+      | _ => []
+    if udpAcceptFails swallowShort r then (out, false)
+    else
+      let rec' := udpLoop swallowShort unpack handler wok rest
+      (out ++ rec'.1, rec'.2)
+
+/-! ## Pooled byte buffers (`udpPool`, `tcpPool`, `reqPool`, `respPool`)
+
+The request bytes live in a pooled buffer until `Unpack` has copied them out;
+the packed response lives in a pooled buffer until the socket write returns.
+Program order of "the transport reads the buffer" (`send`) and "the buffer goes
+back to its pool" (`dispose`), run against the same worst schedule as the
+response objects: a concurrent request takes and overwrites the buffer right
+after every `Put`. -/
+
+/-- Request buffer.  UDP and TCP/DoT: `serve…` (which unpacks) and then `Put`;
+DoQ: `Unpack` inside `readQUICMsg`, whose deferred `Put` runs at its return;
+DoH and DNSCrypt have no pooled request buffer in this package. -/
+def reqBufLife : Transport → List LifeEv
+  | .udp | .tcp | .dot | .doq => [.send, .dispose]
+  | _ => []
+
+/-- Response buffer.  `werr` = packing or the socket write failed.  UDP and
+TCP/DoT writers give the buffer back only on error (after the failed write);
+DoQ packs, writes to the stream, and its deferred `Put` runs at return. -/
+def respBufLife (t : Transport) (werr : Bool) : List LifeEv :=
+  match t with
+  | .udp | .tcp | .dot => if werr then [.send, .dispose] else [.send]
+  | .doq => [.send, .dispose]
+  | _ => []
+
+/-! ## The JSON API with `ct=application/dns-message`: JSON front end, wire answer -/
+
+def serveJSONWire (j : JSONReq) (id : Nat) (o : Outcome) : Sees :=
+  match jsonToMsg j id with
+  | none => { status := stHTTP400, msgs := [] }
+  | some m => serveMsg .dohJSON m o true
 
 /-- The handler used by the correspondence harness: `SetReply(req)`, an rcode and
 `n` answer records. -/
